@@ -223,12 +223,32 @@ def mutate(data, muts):
 _POOLS = None
 
 
+# XSD 1.1 negative wildcards (notNamespace / notQName), strict and lax, as particles and as attribute wildcards:
+# error construction has to describe "what was expected" for constraints that have no namespace list
+W11_XSD = ('<xs:schema xmlns:xs="http://www.w3.org/2001/XMLSchema" xmlns:t="urn:t" targetNamespace="urn:t" '
+           'elementFormDefault="qualified"><xs:element name="g" type="xs:int"/><xs:element name="root"><xs:complexType>'
+           '<xs:sequence><xs:element name="a" type="xs:int" minOccurs="0"/><xs:any notNamespace="urn:x ##local" '
+           'processContents="strict"/><xs:any notQName="t:g ##defined" processContents="lax" minOccurs="0"/>'
+           '<xs:element name="z" minOccurs="0"><xs:complexType><xs:sequence><xs:any notNamespace="##targetNamespace" '
+           'processContents="skip" maxOccurs="2"/></xs:sequence><xs:anyAttribute notNamespace="urn:x" '
+           'processContents="lax"/></xs:complexType></xs:element></xs:sequence><xs:anyAttribute notQName="t:q" '
+           'notNamespace="##local" processContents="strict"/></xs:complexType></xs:element></xs:schema>')
+_W = '<t:root xmlns:t="urn:t" xmlns:x="urn:x" xmlns:o="urn:o"%s>%s</t:root>'
+W11_DOCS = [
+    _W % ('', '<t:g>1</t:g>'), _W % ('', '<t:a>1</t:a><t:g>2</t:g><o:k/>'), _W % ('', '<x:bad/>'), _W % ('', '<nons/>'),
+    _W % ('', ''), _W % ('', '<t:a>1</t:a>'), _W % ('', '<t:g>1</t:g><t:g>2</t:g>'), _W % (' t:q="1"', '<t:g>1</t:g>'),
+    _W % (' q="1"', '<t:g>1</t:g>'), _W % ('', '<t:g>1</t:g><t:z><o:k/><o:k/><o:k/></t:z>'),
+    _W % ('', '<t:g>1</t:g><t:z x:att="1"><t:no/></t:z>'), _W % ('', '<t:g>x</t:g><o:k/><o:k/>'),
+]
+
+
 def schema_pool():
     global _POOLS
     if _POOLS is None:
         _POOLS = []
         for label, cls, src, docs in c10.pools(random.Random(11)):
             _POOLS.append((label, cls(src), [d.encode('utf-8') for d in docs]))
+        _POOLS.append(('W11:negative wildcards', xmlschema.XMLSchema11(W11_XSD), [d.encode('utf-8') for d in W11_DOCS]))
     return _POOLS
 
 
@@ -339,7 +359,7 @@ def judge_typed(st):
 
 
 def shards(tier, seed):
-    out = [('mut', p, k, tier, seed) for p in range(6) for k in range(2)] + [('limits',), ('deep',), ('typed',)]
+    out = [('mut', p, k, tier, seed) for p in range(8) for k in range(2)] + [('limits',), ('deep',), ('typed',)]
     if tier == 'thorough':
         out += [('atheris', k, seed) for k in range(3)]
     return out
@@ -371,6 +391,10 @@ def run_shard(desc):
     label, s, docs = schema_pool()[p]
     n = 1500 if tier == "thorough" else 220
     strat = hst.tuples(hst.integers(0, len(docs) - 1), st_mutations())
+    if k == 0:
+        for d0 in docs:          # the seed documents themselves (valid and invalid ones of the pool)
+            for r in judge_bytes(label, s, d0, st):
+                core.report(st, PROPERTY, r)
 
     def body(v, st_):
         i, muts = v
